@@ -6,6 +6,7 @@ import (
 	"fmt"
 	"math"
 	"reflect"
+	"sort"
 	"strconv"
 	"strings"
 	"time"
@@ -492,7 +493,9 @@ func runC19(r *Runner, g *Gen, tier string) string {
 		for q := 0; q < 40; q++ {
 			sch = append(sch, A(fmt.Sprint(q%2)))
 		}
-		r.Do(L(A("internsched"), L(A("reqs"), L(append(big, A(hx([]byte("fresh-b"))), A(hx([]byte("fresh-c"))))...), L(t1...)), L(sch...)), true, "internsched.large")
+		lop := L(A("internsched"), L(A("reqs"), L(append(big, A(hx([]byte("fresh-b"))), A(hx([]byte("fresh-c"))))...), L(t1...)), L(sch...))
+		r.Do(lop, true, "internsched.large")
+		r.Do(makeInternTraceOp(lop), true, "interntrace.large")
 	}
 	// concurrent: 2-3 goroutines share one interned field; deterministic schedules over the intern yield points
 	m := scale(tier, 600, 40000)
@@ -520,7 +523,9 @@ func runC19(r *Runner, g *Gen, tier string) string {
 				sch = append(sch, A(fmt.Sprint(g.r.Intn(nt))))
 			}
 		}
-		r.Do(L(A("internsched"), L(reqs...), L(sch...)), true, "internsched")
+		sop := L(A("internsched"), L(reqs...), L(sch...))
+		r.Do(sop, true, "internsched")
+		r.Do(makeInternTraceOp(sop), true, "interntrace")
 	}
 	return "histories of 1-10 decodes through one freshly built interned string field (string and null.String): new, repeated, empty, prefix-sharing and binary inputs, the caller's buffer overwritten after every call and all results re-read at the end; compared with the model: the decoded strings and the sharing structure (which results are the same allocation); oracle: each result equals the input bytes (= what the plain codec returns)"
 }
@@ -537,6 +542,30 @@ func oracleInternSched(op *Sexp, res string) []string {
 	}
 	if res != strings.Join(want, " | ") {
 		return []string{"interned decode under a schedule differs from the inputs: " + res + " | trace: " + schedLastTrace}
+	}
+	return nil
+}
+
+// the real run behind a recorded trace: results are the inputs, the table holds exactly the distinct inputs
+func oracleInternTrace(op *Sexp, res string) []string {
+	var want []string
+	distinct := map[string]bool{}
+	for _, th := range op.List[1].List[1:] {
+		var ds []string
+		for _, it := range th.List {
+			ds = append(ds, it.Atom)
+			distinct[it.Atom] = true
+		}
+		want = append(want, strings.Join(ds, ","))
+	}
+	var keys []string
+	for k := range distinct {
+		keys = append(keys, k)
+	}
+	sort.Strings(keys)
+	exp := "conforms keys=" + strings.Join(keys, ",") + " results=" + strings.Join(want, " | ")
+	if res != exp {
+		return []string{"interned decode under a schedule: got " + res + " want " + exp}
 	}
 	return nil
 }
